@@ -217,6 +217,18 @@ func (g *Gen) findLoops() {
 			li.spec = g.con.Loops[li.ordinal]
 		}
 	}
+	// a contract that names a loop the function does not have no longer fits the code
+	if g.con != nil && len(g.inlineStack) == 0 {
+		have := map[int]bool{}
+		for _, li := range lis {
+			have[li.ordinal] = true
+		}
+		for k := range g.con.Loops {
+			if !have[k] {
+				oos("the contract has clauses for loop %d but the function has no such loop", k)
+			}
+		}
+	}
 	// detect ordinal collisions
 	seen := map[int]bool{}
 	for _, li := range lis {
